@@ -238,7 +238,7 @@ def run(prop, replay_file=None):
     t, sd = tier(), seed()
     rep.assumptions = ["exact dyadic grid (sizing boundaries are C10/C11's subject); every asset of interest has a quote",
                        "fixed-weight optimiser; alpha model = fixed dictionary or absent; static universe chosen afresh at every rebalance"]
-    n = 250 if t == "quick" else 3000
+    n = 250 if t == "quick" else 12000
     if replay_file:
         payload = json.load(open(replay_file))
         sids, sd = [payload["scenario"]], payload["seed"]
